@@ -270,7 +270,7 @@ func c08Pass(c *core.Ctx, incEdited bool) {
 	_ = os.WriteFile(incPath, []byte(incDisk), 0o644)
 
 	emphasis := []string{"desc-shape", "header-kind", "note-shape", "pipe-blanks", "code", "status", "header-gap", "date2", "date-sep", "date-pad",
-		"account-shape", "commodity", "sign", "number", "cost", "cost-amount", "assertion", "posting-comment", "header-comment", "tx-comment-line", "last-posting-comment",
+		"account-shape", "commodity", "sign", "number", "cost", "cost-amount", "assertion", "posting-comment", "header-comment", "tx-comment-line", "comment-line-after-posting", "last-posting-comment",
 		"posting-kind", "posting-status", "blank-lines", "entry-before", "entry-between", "line-end", "indent", "amount-sep", "posting-count", "amount-present", "shared-names", "final-newline"}
 	devs := gmodel.Filter(gmodel.Deviations(), emphasis...)
 
@@ -598,31 +598,52 @@ func c08Pass(c *core.Ctx, incEdited bool) {
 		return !c.Expired()
 	}
 	gmodel.Enumerate(gmodel.Default, devs, bound, visit)
-	if !c.Thorough() {
-		// listed pairs: non-BMP text before each kind of element, adjacent transactions
+	{
+		// listed combinations: non-BMP text before each kind of element, adjacent
+		// entries (quick: pairs that bound 1 does not reach; both tiers: triples)
 		byName := map[string]gmodel.Dev{}
 		for _, d := range gmodel.Deviations() {
 			byName[d.String()] = d
 		}
-		pairs := [][2]string{
-			{"desc-shape=🍕 pizza", "header-comment=tag"}, {"desc-shape=🍕 pizza", "code=(123)"}, {"desc-shape=🍕 pizza", "status=*"},
-			{"account-shape=expenses:🍕", "commodity=quoted-right"}, {"account-shape=expenses:🍕", "cost=@ 1/1"}, {"account-shape=expenses:🍕", "posting-comment=tag"},
-			{"account-shape=expenses:🍕", "assertion== 1/1"}, {"account-shape=расходы:еда", "posting-comment=two-tags"},
-			{"blank-lines=0", "entry-between=account"}, {"blank-lines=0", "desc-shape=🍕 pizza"}, {"posting-comment=nonascii-before-tag", "account-shape=expenses:🍕"},
-			{"header-kind=payee|note", "desc-shape=🍕 pizza"}, {"header-kind=payee|note", "pipe-blanks=0/0"}, {"line-end=CRLF", "account-shape=expenses:🍕"},
-			{"status=!", "code=(a b)"}, {"header-gap=2", "status=*"}, {"commodity=rub-right-nogap", "sign=negative"}, {"entry-before=commodity-quoted", "commodity=quoted-right"},
+		combos := [][]string{
+			{"blank-lines=0", "entry-between=comment", "comment-line-after-posting=last, tag"},
+			{"blank-lines=0", "entry-after=comment", "comment-line-after-posting=last, tag"},
+			{"blank-lines=0", "entry-between=comment-tag", "last-posting-comment=tag"},
+			{"blank-lines=0", "entry-before=comment", "tx-comment-line=text"},
+			{"blank-lines=0", "entry-between=account-subline", "comment-line-after-posting=last, tag"},
+			{"line-end=CRLF", "blank-lines=0", "entry-between=comment"},
 		}
-		for _, p := range pairs {
-			a, ok1 := byName[p[0]]
-			b, ok2 := byName[p[1]]
-			if !ok1 || !ok2 {
-				c.Note("pair not in catalogue: %v", p)
+		if !c.Thorough() {
+			combos = append(combos, [][]string{
+				{"desc-shape=🍕 pizza", "header-comment=tag"}, {"desc-shape=🍕 pizza", "code=(123)"}, {"desc-shape=🍕 pizza", "status=*"},
+				{"account-shape=expenses:🍕", "commodity=quoted-right"}, {"account-shape=expenses:🍕", "cost=@ 1/1"}, {"account-shape=expenses:🍕", "posting-comment=tag"},
+				{"account-shape=expenses:🍕", "assertion== 1/1"}, {"account-shape=расходы:еда", "posting-comment=two-tags"},
+				{"blank-lines=0", "entry-between=account"}, {"blank-lines=0", "desc-shape=🍕 pizza"}, {"posting-comment=nonascii-before-tag", "account-shape=expenses:🍕"},
+				{"header-kind=payee|note", "desc-shape=🍕 pizza"}, {"header-kind=payee|note", "pipe-blanks=0/0"}, {"line-end=CRLF", "account-shape=expenses:🍕"},
+				{"status=!", "code=(a b)"}, {"header-gap=2", "status=*"}, {"commodity=rub-right-nogap", "sign=negative"}, {"entry-before=commodity-quoted", "commodity=quoted-right"},
+				{"blank-lines=0", "entry-between=comment"}, {"blank-lines=0", "comment-line-after-posting=last, tag"},
+			}...)
+		}
+		for _, names := range combos {
+			var applied []gmodel.Dev
+			ok := true
+			for _, n := range names {
+				d, found := byName[n]
+				if !found {
+					c.Note("combination not in catalogue: %v", names)
+					ok = false
+					break
+				}
+				applied = append(applied, d)
+			}
+			if !ok {
 				continue
 			}
 			j := gmodel.Default()
-			a.Apply(j)
-			b.Apply(j)
-			visit(j, []gmodel.Dev{a, b})
+			for _, d := range applied {
+				d.Apply(j)
+			}
+			visit(j, applied)
 		}
 	}
 }
